@@ -35,9 +35,16 @@ func main() {
 	case "explore": // explore <prop> <tier> <unit-substring> [reduce|full]
 		os.Setenv("VERIF_DEBUG_OUTCOMES", "1")
 		debugOutcomes = true
+		maxScen := 3
+		if m := os.Getenv("VERIF_MAXSCEN"); m != "" {
+			fmt.Sscan(m, &maxScen)
+		}
 		for _, sc := range scenariosOf(os.Args[2], os.Args[3]) {
 			if !strings.Contains(sc.Name, os.Args[4]) {
 				continue
+			}
+			if maxScen--; maxScen < 0 {
+				break
 			}
 			if len(os.Args) > 5 {
 				sc.Reduce = os.Args[5] == "reduce"
